@@ -26,6 +26,7 @@ import (
 	"testing"
 
 	"github.com/emersion/go-imap"
+	"github.com/emersion/go-imap/backend"
 	"github.com/emersion/go-message/textproto"
 	"github.com/emersion/go-smtp"
 	"github.com/foxcpp/maddy/framework/buffer"
@@ -99,6 +100,7 @@ type Cfg struct {
 	NF       int    `json:"nf"`
 	JBox     string `json:"jbox"`
 	JunkName string `json:"junkName"`
+	Watch    bool   `json:"watch"` // an IMAP session has INBOX of account a selected
 	Msgs     []Msg  `json:"msgs"`
 }
 
@@ -384,6 +386,57 @@ func newEnv(t testing.TB, b Behaviour, root string) *env {
 		u.Logout()
 	}
 	return e
+}
+
+// ---- the watching IMAP session ------------------------------------------------------------
+
+// watcher is an IMAP session that has INBOX of account a selected: told is the number of
+// messages the backend has announced to it (the EXISTS responses a client would get).
+type watcher struct {
+	mu   sync.Mutex
+	told int
+	user interface{ Logout() error }
+	mbox interface {
+		Poll(expunge bool) error
+		Close() error
+	}
+}
+
+func (w *watcher) SendUpdate(upd backend.Update) error {
+	if mu, ok := upd.(*backend.MailboxUpdate); ok && mu.MailboxStatus != nil {
+		if _, has := mu.Items[imap.StatusMessages]; has {
+			w.mu.Lock()
+			w.told = int(mu.Messages)
+			w.mu.Unlock()
+		}
+	}
+	return nil
+}
+
+func (e *env) watch(t testing.TB) *watcher {
+	w := &watcher{}
+	u, err := e.st.GetIMAPAcct(acctName["a"])
+	if err != nil {
+		t.Fatalf("watcher: %v", err)
+	}
+	status, mb, err := u.GetMailbox("INBOX", true, w)
+	if err != nil {
+		t.Fatalf("watcher: select INBOX: %v", err)
+	}
+	w.told = int(status.Messages)
+	w.user, w.mbox = u, mb
+	return w
+}
+
+// poll is what the session does between two commands (NOOP / IDLE wake-up)
+func (w *watcher) poll() int {
+	if w == nil {
+		return 0
+	}
+	w.mbox.Poll(true)
+	w.mu.Lock()
+	defer w.mu.Unlock()
+	return w.told
 }
 
 // ---- reading the mailboxes back ---------------------------------------------------------
@@ -682,7 +735,15 @@ func runBehaviour(t *testing.T, b Behaviour, w io.Writer) {
 		msgs = append(msgs, map[string]interface{}{"list": m.List, "quar": m.Quar})
 	}
 	tr.Emit("Cfg", vtrace.Ev{"norm": b.Cfg.Norm, "dmap": b.Cfg.DMap, "nf": b.Cfg.NF, "jbox": b.Cfg.JBox,
-		"junkName": b.Cfg.JunkName, "msgs": msgs, "fkind": e.fkind})
+		"junkName": b.Cfg.JunkName, "watch": b.Cfg.Watch, "msgs": msgs, "fkind": e.fkind})
+	var wt *watcher
+	if b.Cfg.Watch {
+		wt = e.watch(t)
+		defer func() {
+			wt.mbox.Close()
+			wt.user.Logout()
+		}()
+	}
 
 	snap := func() []rec {
 		s, err := e.snapshot()
@@ -692,6 +753,10 @@ func runBehaviour(t *testing.T, b Behaviour, w io.Writer) {
 		return s
 	}
 
+	emit := func(name string, ev vtrace.Ev) {
+		ev["told"] = wt.poll()
+		tr.Emit(name, ev)
+	}
 	var d module.Delivery
 	var curMsg string
 	for _, s := range b.Hist {
@@ -707,7 +772,7 @@ func runBehaviour(t *testing.T, b Behaviour, w io.Writer) {
 			if err != nil {
 				t.Fatalf("behaviour %d: Start failed: %v", b.ID, err)
 			}
-			tr.Emit("Start", vtrace.Ev{"msg": s.Msg, "quar": s.Quar, "snap": snap()})
+			emit("Start", vtrace.Ev{"msg": s.Msg, "quar": s.Quar, "snap": snap()})
 		case "AddRcpt":
 			err := d.AddRcpt(ctx, addrText[s.Ad], smtp.RcptOptions{})
 			ev := vtrace.Ev{"ad": s.Ad, "res": resClass(err), "snap": snap()}
@@ -717,19 +782,19 @@ func runBehaviour(t *testing.T, b Behaviour, w io.Writer) {
 					ev["code"] = code
 				}
 			}
-			tr.Emit("AddRcpt", ev)
+			emit("AddRcpt", ev)
 		case "Delete":
 			if err := e.st.DeleteIMAPAcct(acctName[s.Acct]); err != nil {
 				t.Fatalf("behaviour %d: cannot delete account: %v", b.ID, err)
 			}
-			tr.Emit("Delete", vtrace.Ev{"acct": s.Acct, "snap": snap()})
+			emit("Delete", vtrace.Ev{"acct": s.Acct, "snap": snap()})
 		case "Login":
 			// the owner of the mailbox logs in over IMAP with another spelling of the name
 			u, err := e.st.GetOrCreateIMAPAcct("Nobody@Example.ORG")
 			if err == nil {
 				u.Logout()
 			}
-			tr.Emit("Login", vtrace.Ev{"acct": s.Acct, "res": resClass(err), "snap": snap()})
+			emit("Login", vtrace.Ev{"acct": s.Acct, "res": resClass(err), "snap": snap()})
 		case "Body":
 			world.mu.Lock()
 			world.outs, world.calls, world.blobN, world.blobFail, world.fired = s.Outs, nil, 0, s.Fault, false
@@ -770,7 +835,7 @@ func runBehaviour(t *testing.T, b Behaviour, w io.Writer) {
 			}
 			ev["res"] = res
 			ev["snap"] = snap()
-			tr.Emit("Body", ev)
+			emit("Body", ev)
 		case "Commit":
 			err := d.Commit(ctx)
 			ev := vtrace.Ev{"res": "ok", "snap": snap()}
@@ -778,7 +843,7 @@ func runBehaviour(t *testing.T, b Behaviour, w io.Writer) {
 				ev["res"] = "fail"
 				ev["err"] = err.Error()
 			}
-			tr.Emit("Commit", ev)
+			emit("Commit", ev)
 			d = nil
 		case "Abort":
 			err := d.Abort(ctx)
@@ -787,7 +852,7 @@ func runBehaviour(t *testing.T, b Behaviour, w io.Writer) {
 				ev["res"] = "fail"
 				ev["err"] = err.Error()
 			}
-			tr.Emit("Abort", ev)
+			emit("Abort", ev)
 			d = nil
 		case "End":
 			n, err := e.orphans()
